@@ -155,3 +155,96 @@ func (c *Ctx) LinkTypestate(rule, list, entry string) int {
 	}
 	return n
 }
+
+// ListImpl: closed site tables of one generated intrusive list (the template
+// of pkg/ilist instantiated for an element type): PushBack, PushFront,
+// InsertAfter and Remove write both link directions and head/tail on exactly
+// the empty/non-empty branches; Front/Back/Empty and the entry accessors are
+// the one-liners they look like. pkg "tcp", list "segmentList", entry
+// "segmentEntry", mapper "segmentElementMapper". ops selects which
+// mutators the package uses (the others are unused template code).
+func (c *Ctx) ListImpl(rule, pkg, list, entry, mapper string, ops ...string) {
+	L := "(*" + pkg + "." + list + ")."
+	E := "(*" + pkg + "." + entry + ")."
+	lk := func(x string) string { return "&" + pkg + "." + mapper + ".linkerFor(zero, " + x + ")." + entry }
+	head, tail := pkg+"."+list+".head", pkg+"."+list+".tail"
+	has := func(op string) bool {
+		for _, o := range ops {
+			if o == op {
+				return true
+			}
+		}
+		return false
+	}
+	call := func(m, recv string, args ...string) SiteSpec {
+		return SiteSpec{Kind: "call", Target: E + m, Args: append([]string{recv}, args...)}
+	}
+	with := func(s SiteSpec, guards []string, why string) SiteSpec {
+		s.Guards, s.Exact, s.N, s.Why = guards, true, 1, why
+		if s.Guards == nil {
+			s.Guards = []string{}
+		}
+		return s
+	}
+	store := func(target, val string) SiteSpec {
+		return SiteSpec{Kind: "store", Target: target, Args: []string{"$0", val}}
+	}
+	if has("PushBack") {
+		if fn := c.Fn(rule, L+"PushBack"); fn != nil {
+			c.CheckSites(rule, fn, []SiteSpec{
+				with(call("SetNext", lk("$1"), "nil"), nil, "the new last element has no successor"),
+				with(call("SetPrev", lk("$1"), "$0.tail"), nil, "its predecessor is the old tail"),
+				with(call("SetNext", lk("$0.tail"), "$1"), []string{"!($0.tail == nil)"}, "the old tail points to it"),
+				with(store(head, "$1"), []string{"($0.tail == nil)"}, "empty list: it is also the head"),
+				with(store(tail, "$1"), nil, "it is the tail"),
+			})
+		}
+	}
+	if has("PushFront") {
+		if fn := c.Fn(rule, L+"PushFront"); fn != nil {
+			c.CheckSites(rule, fn, []SiteSpec{
+				with(call("SetNext", lk("$1"), "$0.head"), nil, "the new first element's successor is the old head"),
+				with(call("SetPrev", lk("$1"), "nil"), nil, "it has no predecessor"),
+				with(call("SetPrev", lk("$0.head"), "$1"), []string{"!($0.head == nil)"}, "the old head points back to it"),
+				with(store(tail, "$1"), []string{"($0.head == nil)"}, "empty list: it is also the tail"),
+				with(store(head, "$1"), nil, "it is the head"),
+			})
+		}
+	}
+	if has("InsertAfter") {
+		if fn := c.Fn(rule, L+"InsertAfter"); fn != nil {
+			nx := E + "Next(" + lk("$1") + ")"
+			c.CheckSites(rule, fn, []SiteSpec{
+				with(call("SetNext", lk("$2"), nx), nil, "the inserted element's successor is b's old successor"),
+				with(call("SetPrev", lk("$2"), "$1"), nil, "its predecessor is b"),
+				with(call("SetNext", lk("$1"), "$2"), nil, "b points to it"),
+				with(call("SetPrev", lk(nx), "$2"), []string{"!(" + nx + " == nil)"}, "b's old successor points back to it"),
+				with(store(tail, "$2"), []string{"(" + nx + " == nil)"}, "b was the tail: the inserted element is the tail now"),
+			})
+		}
+	}
+	if has("Remove") {
+		if fn := c.Fn(rule, L+"Remove"); fn != nil {
+			pv, nx := E+"Prev("+lk("$1")+")", E+"Next("+lk("$1")+")"
+			// open table: additionally clearing the removed element's own links
+			// is harmless by itself (the typestate rule decides whether anyone
+			// reads them afterwards)
+			c.CheckSitesPresent(rule, fn, []SiteSpec{
+				with(call("SetNext", lk(pv), nx), []string{"!(" + pv + " == nil)"}, "the predecessor skips the removed element"),
+				with(store(head, nx), []string{"(" + pv + " == nil)"}, "removed the head: head = successor"),
+				with(call("SetPrev", lk(nx), pv), []string{"!(" + nx + " == nil)"}, "the successor points back to the predecessor"),
+				with(store(tail, pv), []string{"(" + nx + " == nil)"}, "removed the tail: tail = predecessor"),
+			})
+		}
+	}
+	c.Returns(rule, L+"Front", RetSpec{Args: []string{"$0.head"}, Why: "Front is the head"})
+	c.Returns(rule, L+"Back", RetSpec{Args: []string{"$0.tail"}, Why: "Back is the tail"})
+	c.Returns(rule, L+"Empty", RetSpec{Args: []string{"($0.head == nil)"}, Why: "empty iff there is no head"})
+	c.Returns(rule, E+"Next", RetSpec{Args: []string{"$0.next"}, Why: "Next is the next link"})
+	c.Returns(rule, E+"Prev", RetSpec{Args: []string{"$0.prev"}, Why: "Prev is the prev link"})
+	for _, m := range [][2]string{{"SetNext", "next"}, {"SetPrev", "prev"}} {
+		if fn := c.Fn(rule, E+m[0]); fn != nil {
+			c.CheckSites(rule, fn, []SiteSpec{{Kind: "store", Target: pkg + "." + entry + "." + m[1], Args: []string{"$0", "$1"}, Guards: []string{}, Exact: true, N: 1, Why: m[0] + " sets the " + m[1] + " link"}})
+		}
+	}
+}
